@@ -1,10 +1,12 @@
 from checks import finite
+from checks.e3num import run_e3num
 from checks.generic import run_components
 
 ASSUME = ["A-INT: ints unbounded", "np.argsort returns a permutation of range(n) that sorts its argument (external)",
-          "UFL's integral_data grouping (which integrands belong to which subdomain id) is trusted"]
+          "UFL's integral_data grouping (which integrands belong to which subdomain id) is trusted",
+          "E3 numeric (bounded): the kernel of every corpus (type, id) group with several integrals or a numbered subdomain equals the sum of the reference integrals of that group"]
 
 
 def run(tier, seed):
-    return run_components("C06", tier, seed, ["e1", finite.c06_enum_order, finite.c06_no_everywhere_append, "e3desc"], ASSUME,
+    return run_components("C06", tier, seed, ["e1", finite.c06_enum_order, finite.c06_no_everywhere_append, "e3desc", run_e3num], ASSUME,
                           ["runtime/descriptors.py (parse-back of the generated descriptors)"])
